@@ -90,24 +90,27 @@ macro_rules! splits {
 // every split point of the 18-byte stream through extend_from_slice, a selection through the
 // zero-copy interface (one CBMC run per split point: many packetizers in one run do not finish)
 splits! {
+    q_c14_split_03 = (3, false);
+    q_c14_split_04 = (4, false);
+    q_c14_split_06 = (6, false);
+    q_c14_split_11 = (11, false);
+    q_c14_split_12 = (12, false);
+    q_c14_split_17 = (17, false);
+}
+#[cfg(not(verif_quick))]
+splits! {
     q_c14_split_00 = (0, false);
     q_c14_split_01 = (1, false);
     q_c14_split_02 = (2, false);
-    q_c14_split_03 = (3, false);
-    q_c14_split_04 = (4, false);
     q_c14_split_05 = (5, false);
-    q_c14_split_06 = (6, false);
     q_c14_split_07 = (7, false);
     q_c14_split_08 = (8, false);
     q_c14_split_09 = (9, false);
     q_c14_split_10 = (10, false);
-    q_c14_split_11 = (11, false);
-    q_c14_split_12 = (12, false);
     q_c14_split_13 = (13, false);
     q_c14_split_14 = (14, false);
     q_c14_split_15 = (15, false);
     q_c14_split_16 = (16, false);
-    q_c14_split_17 = (17, false);
     q_c14_split_18 = (18, false);
 }
 
@@ -168,9 +171,13 @@ macro_rules! spare_splits {
     )*};
 }
 
+// not registered: two frames through the zero-copy interface run the SAT back end out of memory
+// (14 GB) since the runs no longer share the machine with nothing else; one frame split anywhere
+// through the zero-copy interface (below) is decided
+#[cfg(verif_experimental)]
 spare_splits! {
-    q_c14_spare_spare_02 = (2, true, true);
     q_c14_extend_spare_02 = (2, false, true);
+    q_c14_spare_spare_02 = (2, true, true);
     q_c14_spare_extend_02 = (2, true, false);
 }
 
@@ -211,12 +218,15 @@ macro_rules! one_frame_splits {
 }
 
 one_frame_splits! {
-    q_c14_one_spare_spare_0 = (0, true, true);
     q_c14_one_spare_spare_1 = (1, true, true);
-    q_c14_one_spare_spare_3 = (3, true, true);
-    q_c14_one_extend_spare_1 = (1, false, true);
     q_c14_one_extend_spare_4 = (4, false, true);
     q_c14_one_spare_extend_1 = (1, true, false);
+}
+#[cfg(not(verif_quick))]
+one_frame_splits! {
+    q_c14_one_spare_spare_0 = (0, true, true);
+    q_c14_one_spare_spare_3 = (3, true, true);
+    q_c14_one_extend_spare_1 = (1, false, true);
     q_c14_one_extend_spare_0 = (0, false, true);
     q_c14_one_extend_spare_2 = (2, false, true);
     q_c14_one_extend_spare_3 = (3, false, true);
@@ -248,8 +258,11 @@ macro_rules! three {
 }
 
 three! {
-    q_c14_three_02_09 = (2, 9);
     q_c14_three_04_06 = (4, 6);
+}
+#[cfg(not(verif_quick))]
+three! {
+    q_c14_three_02_09 = (2, 9);
     q_c14_three_05_12 = (5, 12);
 }
 
